@@ -28,6 +28,7 @@ type Job struct {
 	NoNative  bool     // no native replay available for this job
 	Sched     string   // goroutine scheduling policy: "" fifo | lifo | fifo-lastsel
 	TimeoutMs int      // per-query solver timeout
+	Confirm   string   // native-only entry that amplifies schedule-dependent counterexamples (leaks, deadlocks) for confirmation
 }
 
 func (j Job) String() string {
